@@ -17,6 +17,8 @@
 #include <sstream>
 #include <string>
 #include <vector>
+#include <set>
+#include <array>
 using namespace covfie;
 using u64 = std::uint64_t;
 template <typename T> std::string rle(u64 lo, u64 hi) {
@@ -26,6 +28,46 @@ template <typename T> std::string rle(u64 lo, u64 hi) {
     if (v != cur) { os << start << " " << (i - 1) << " " << static_cast<u64>(cur) << ";"; start = i; cur = v; }
   }
   os << start << " " << hi << " " << static_cast<u64>(cur) << ";";
+  return os.str();
+}
+// The two utilities called where the language evaluates constants if it can (initialisers of namespace-scope constants with
+// constant arguments): whatever such a call yields must be what the run-time call yields. (With utilities that are not
+// constexpr these are ordinary dynamic initialisations.)  inputs: 0 .. 2^(w-1) around every power of two; every value at 8 bit
+template <typename T> constexpr T np2_in(std::size_t k) {
+  constexpr unsigned w = 8 * sizeof(T);
+  if (w == 8) return static_cast<T>(k);                       // k = 0 .. 128
+  const unsigned e = static_cast<unsigned>(k / 5); const int d = static_cast<int>(k % 5) - 2;   // 2^e + d, e = 0 .. w-1, d = -2 .. 2
+  const u64 v = (u64(1) << e) + static_cast<u64>(static_cast<long long>(d));
+  const u64 half = u64(1) << (w - 1);
+  return static_cast<T>((e == 0 && d < 0) ? 0 : (v > half ? half : v));
+}
+template <typename T> constexpr std::size_t np2_count() { return sizeof(T) == 1 ? 129 : 5 * 8 * sizeof(T); }
+template <typename T, std::size_t... Is> constexpr std::array<T, sizeof...(Is)> np2_tab(std::index_sequence<Is...>) {
+  return {{utility::round_pow2<T>(np2_in<T>(Is))...}};
+}
+template <typename T, std::size_t... Is> constexpr std::array<T, sizeof...(Is)> ipow_tab(std::index_sequence<Is...>) {
+  return {{utility::ipow<T>(static_cast<T>(Is % 16 + (Is / 256) * 3), static_cast<T>((Is / 16) % 16))...}};
+}
+static const auto NP2C_8 = np2_tab<std::uint8_t>(std::make_index_sequence<np2_count<std::uint8_t>()>{});
+static const auto NP2C_16 = np2_tab<std::uint16_t>(std::make_index_sequence<np2_count<std::uint16_t>()>{});
+static const auto NP2C_32 = np2_tab<std::uint32_t>(std::make_index_sequence<np2_count<std::uint32_t>()>{});
+static const auto NP2C_64 = np2_tab<std::uint64_t>(std::make_index_sequence<np2_count<std::uint64_t>()>{});
+static const auto IPOWC_8 = ipow_tab<std::uint8_t>(std::make_index_sequence<512>{});
+static const auto IPOWC_64 = ipow_tab<std::uint64_t>(std::make_index_sequence<512>{});
+template <typename T, typename A> std::string np2_const(const A & tab) {     // "<input>:<constant>:<run-time>;" ...
+  std::ostringstream os;
+  for (std::size_t k = 0; k < tab.size(); ++k) {
+    volatile T in = np2_in<T>(k);
+    os << static_cast<u64>(np2_in<T>(k)) << ":" << static_cast<u64>(tab[k]) << ":" << static_cast<u64>(utility::round_pow2<T>(in)) << ";";
+  }
+  return os.str();
+}
+template <typename T, typename A> std::string ipow_const(const A & tab) {     // "<b>:<e>:<constant>:<run-time>;" ...
+  std::ostringstream os;
+  for (std::size_t k = 0; k < tab.size(); ++k) {
+    volatile T b = static_cast<T>(k % 16 + (k / 256) * 3), e = static_cast<T>((k / 16) % 16);
+    os << static_cast<u64>(b) << ":" << static_cast<u64>(e) << ":" << static_cast<u64>(tab[k]) << ":" << static_cast<u64>(utility::ipow<T>(b, e)) << ";";
+  }
   return os.str();
 }
 // nd_map is called with three forms of callback, which must all see the same sequence of tuples:
@@ -88,6 +130,26 @@ template <std::size_t N> std::string nd_big(const std::vector<u64> & sz) {
   u64 missed = 0; for (u64 r = 0; r < total; ++r) if (!seen[r]) ++missed;
   return std::to_string(calls) + " " + std::to_string(missed) + " " + std::to_string(dup) + " " + std::to_string(outside);
 }
+// boxes too large to walk to the end: the callback stops the iteration (by an exception) after K calls
+// -> "<calls> <outside the box> <tuples seen twice> <threw|returned>"
+struct nd_stop {};
+template <std::size_t N> std::string nd_huge(const std::vector<u64> & sz, u64 K) {
+  using S = utility::nd_size<N>;
+  S s; for (std::size_t k = 0; k < N; ++k) s[k] = sz[k];
+  u64 calls = 0, outside = 0, dup = 0;
+  std::set<std::array<u64, N>> seen;
+  bool threw = false;
+  try {
+    utility::nd_map<S>([&](S t) {
+      if (calls == K) throw nd_stop{};
+      ++calls; std::array<u64, N> a{}; bool in = true;
+      for (std::size_t k = 0; k < N; ++k) { a[k] = t[k]; if (t[k] >= sz[k]) in = false; }
+      if (!in) ++outside;
+      if (!seen.insert(a).second) ++dup;
+    }, s);
+  } catch (const nd_stop &) { threw = true; }
+  return std::to_string(calls) + " " + std::to_string(outside) + " " + std::to_string(dup) + (threw ? " threw" : " returned");
+}
 template <typename T, std::size_t N> std::string ndmt(const std::vector<u64> & sz) {
   using S = covfie::array::array<T, N>;
   S s; for (std::size_t k = 0; k < N; ++k) s[k] = static_cast<T>(sz[k]);
@@ -127,6 +189,12 @@ int main() {
       else if (ty == "u32") r = ndmtN<std::uint32_t>(N, sz); else if (ty == "i32") r = ndmtN<std::int32_t>(N, sz);
     } else if (op == "ndbig") { std::size_t N; is >> N; std::vector<u64> sz(N); for (auto & s : sz) is >> s;
       switch (N) { case 1: r = nd_big<1>(sz); break; case 2: r = nd_big<2>(sz); break; case 3: r = nd_big<3>(sz); break; case 4: r = nd_big<4>(sz); break; }
+    } else if (op == "np2const") { unsigned w; is >> w;
+      r = w == 8 ? np2_const<std::uint8_t>(NP2C_8) : w == 16 ? np2_const<std::uint16_t>(NP2C_16) : w == 32 ? np2_const<std::uint32_t>(NP2C_32) : np2_const<std::uint64_t>(NP2C_64);
+    } else if (op == "ipowconst") { unsigned w; is >> w;
+      r = w == 8 ? ipow_const<std::uint8_t>(IPOWC_8) : ipow_const<std::uint64_t>(IPOWC_64);
+    } else if (op == "ndhuge") { std::size_t N; u64 K; is >> K >> N; std::vector<u64> sz(N); for (auto & s : sz) is >> s;
+      switch (N) { case 1: r = nd_huge<1>(sz, K); break; case 2: r = nd_huge<2>(sz, K); break; case 3: r = nd_huge<3>(sz, K); break; case 4: r = nd_huge<4>(sz, K); break; case 5: r = nd_huge<5>(sz, K); break; }
     } else if (op == "ndmap") { std::size_t N; is >> N; std::vector<u64> sz(N); for (auto & s : sz) is >> s;
       switch (N) { case 1: r = ndm<1>(sz); break; case 2: r = ndm<2>(sz); break; case 3: r = ndm<3>(sz); break; case 4: r = ndm<4>(sz); break; case 5: r = ndm<5>(sz); break; }
     }
